@@ -67,7 +67,7 @@ def renormE : Nat → ES → ES
 def encode (s : ES) (d : Dn) : ES :=
   let st := d.1
   let sv := s.stats.getD st 0
-  let q := Gen.aritab.getD (sv % 128) 0
+  let q := qmTable.getD (sv % 128) 0
   let nl := q % 256
   let nm := (q / 256) % 256
   let qe := q / 65536
